@@ -63,7 +63,48 @@ func c07Round3(c *Ctx) {
 	}
 }
 
+// createKeepsBalance (C09): an account created over an existing one keeps the funds already sent to the address, whatever
+// else the previous object holds; the carry-over depends on nothing but the previous object existing.
+func createKeepsBalance(c *Ctx) {
+	fn := c.Fn("kai/state", "StateDB", "CreateAccount")
+	if fn == nil {
+		return
+	}
+	n, ok := 0, true
+	for _, in := range findInstrs(fn, CallTo(`^\(\*kai/state\.stateObject\)\.setBalance$`, `createObject\(s, addr\)#0, call:\(\*kai/state\.StateDB\)\.createObject\(s, addr\)#1\.data\.Balance\)$`)) {
+		n++
+		for _, cnd := range domConds(in) {
+			if !re(`^\(call:\(\*kai/state\.StateDB\)\.createObject\(s, addr\)#1 != nil\)=T$|^\(call:\(\*kai/state\.StateDB\)\.createObject\(s, addr\)#1 == nil\)=F$`).MatchString(cnd) {
+				ok = false
+			}
+		}
+	}
+	c.Check("F", fnName(fn)+"/the previous object's balance is carried over whenever there is a previous object", n == 1 && ok, fn.Pos(), n, "")
+}
+
 func c10Round3(c *Ctx) {
+	// SELFDESTRUCT inside a frame that later reverts leaves no trace: the journal entry records the account's flag and
+	// balance as they were before the instruction marks and empties it (C08's journal rules, the part C10 depends on)
+	if fn := c.Fn("kai/state", "StateDB", "Suicide"); fn != nil {
+		c.Precedes(fn, "journal the previous flag and balance", CallTo(`^\(\*kai/state\.journal\)\.append$`, `suicideChange\)$`), "mark and empty the account",
+			Or(CallTo(`^\(\*kai/state\.stateObject\)\.markSuicided$`, ""), StoreTo(`\.data\.Balance$`)))
+	}
+	// the end of a data window is computed from the clamped start: start+size on the raw operand wraps for offsets near
+	// 2^64 and the slice expression panics inside CALLDATALOAD/CALLDATACOPY/CODECOPY/EXTCODECOPY
+	if fn := c.Fn("kvm", "", "getData"); fn != nil && len(fn.Params) == 3 {
+		n, ok := 0, true
+		allInstrs(fn, false, func(_ *ssa.Function, in ssa.Instruction) {
+			b, isB := in.(*ssa.BinOp)
+			if !isB || b.Op != token.ADD {
+				return
+			}
+			n++
+			_, xPhi := b.X.(*ssa.Phi)
+			_, yPhi := b.Y.(*ssa.Phi)
+			ok = ok && (xPhi && b.Y == fn.Params[2] || yPhi && b.X == fn.Params[2])
+		})
+		c.Check("G", fnName(fn)+"/the window's end is the clamped start plus the size", n == 1 && ok, fn.Pos(), n, "")
+	}
 	// a log's data is a copy of the memory it was taken from (the frame goes on writing its memory)
 	for _, fn := range c.P.ModFuncs {
 		if fn.Parent() == nil || fn.Parent().Name() != "makeLog" || fn.Pkg == nil || !strings.HasSuffix(fn.Pkg.Pkg.Path(), "/kvm") {
